@@ -29,6 +29,9 @@ def TagType.toU32 : TagType → UInt32
   | .efi32Ih => 19 | .efi64Ih => 20 | .loadBaseAddr => 21
   | .custom c => c
 
+/-- `TagType::val` (delegates to `u32::from`) -/
+def TagType.val (t : TagType) : UInt32 := t.toU32
+
 /-- variant index used by the driver / harness signature (declaration order) -/
 def TagType.index : TagType → UInt32
   | .custom _ => 22
@@ -116,7 +119,9 @@ def sigTagType (v : UInt32) : UInt64 :=
     (if t.toId == i then 1024 else 0) |||
     (if eqTypeId (.custom v) i then 2048 else 0) ||| (if eqIdType i (.custom v) then 4096 else 0) |||
     (if eqTypeU32 (.custom v) v then 8192 else 0) ||| (if eqU32Type v (.custom v) then 16384 else 0) |||
-    (if (TagType.custom v).toU32 == v then 32768 else 0) ||| (if (TagType.custom v).toId == i then 65536 else 0)
+    (if (TagType.custom v).toU32 == v then 32768 else 0) ||| (if (TagType.custom v).toId == i then 65536 else 0) |||
+    (if t.val == v then 131072 else 0) ||| (if (TagType.custom v).val == v then 262144 else 0) |||
+    (if TagTypeId.ofU32 v == i then 524288 else 0)
   (t.index.toUInt64 <<< 48) ^^^ (bits.toUInt64 <<< 32) ^^^ (t.toU32.toUInt64) ^^^ (i.toTagType.toId.toU32.toUInt64 <<< 7)
 
 def sigMemType (v : UInt32) : UInt64 :=
